@@ -195,6 +195,9 @@ def c11(ctx):
     q = ctx.quick()
     ctx.model("mc/MC_Wire.tla", "MC_Wire.cfg", workers=12)
     ctx.sim("codec", 840 if q else 14000, LOOP, "MonLoop_C11.cfg", nontrivial=lambda s: s.get("wire", 0) > 0)
+    # re-issued TCP probes (address in use) and probes sent around failures are probes on the wire too
+    ctx.sim("fault", 200 if q else 3000, LOOP, "MonLoop_C11.cfg", seed_off=1, extra_args=["--log-wire", "--snap", "none"], nontrivial=has_fault)
+    ctx.sim("storm", 30 if q else 300, LOOP, "MonLoop_C11.cfg", seed_off=2, extra_args=["--log-wire", "--snap", "none"], nontrivial=has_fault)
     ctx.write_evidence("model_checking", "model: MC_Wire (the Encode table is the oracle); implementation: distinct (cell, shape) scenarios of the systematic sweep (cell x family x privilege x sizes 28/48..1024 x tos x pattern x boundary initial sequences) with >= 1 datagram on the wire, every datagram decoded by the independent decoder and compared with Wire!Encode",
                        assumptions=LOOP_ASSUME + ["the byte -> field abstraction (lengths consistent, RFC 1071 sums, pattern) is the independent decoder in harness/vh/src/wire.rs (trusted)",
                                                   "for sockets without IP_HDRINCL the simulator synthesises the IP/UDP/TCP header a Linux kernel would emit from the recorded socket options"])
